@@ -374,8 +374,8 @@ def run_trace_job(job, prop, seed, scratch, ev, rec):
     tpath = os.path.join(EVID, "replays", "%s-trace-%d.ndjson" % (prop, seed))
     open(tpath, "w").write("\n".join(bad) + "\n")
     v = dict(property=prop, kind=job.get("kind", ""), n=0, tool="tlc-trace",
-             why="a recorded parallel execution equals no one-at-a-time order of its requests: event %d of the round (%s) cannot be explained"
-                 % (hw - start, lines[hw - 1] if 0 < hw <= len(lines) else "?"),
+             why=(job.get("why") or "a recorded parallel execution equals no one-at-a-time order of its requests") +
+                 ": event %d of the round (%s) cannot be explained" % (hw - start, lines[hw - 1] if 0 < hw <= len(lines) else "?"),
              steps=[json.loads(x) for x in bad], hash="trace-%d-%d" % (seed, start), trace_file=tpath, cfg=job["cfg"], module=job["module"])
     v["class"] = "rejected-trace"
     ev["violations"].append(v)
